@@ -10,10 +10,11 @@ FAMILY_MODULE.update({
 })
 
 
-def pairs_stage(run, family, module, cfg, conv, label):
-    """(G) small-scope universe: every unordered pair of the shapes Gen_Pairs.tla enumerates on a tiny lattice is
-    turned into one or more cases of a binary family by conv(case, index), executed and judged."""
-    src, n = run.tlc_cases("Gen_Pairs", cfg=cfg, out_path=_os0.path.join(run.dir, "cases-pairs-%s-%s.ndjson" % (family, label)))
+def pairs_stage(run, family, module, cfg, conv, label, gen="Gen_Pairs"):
+    """(G) small-scope universe: every unordered pair (Gen_Pairs) or every single one (Gen_Shapes) of the shapes
+    ShapeUniverse.tla defines on a tiny lattice is turned into one or more cases of a family by conv(case, index),
+    executed and judged."""
+    src, n = run.tlc_cases(gen, cfg=cfg, out_path=_os0.path.join(run.dir, "cases-pairs-%s-%s.ndjson" % (family, label)))
     if n == 0:
         raise props.MachineryError("no pairs enumerated")
     out = _os0.path.join(run.dir, "cases-%s-%s.ndjson" % (family, label))
@@ -24,6 +25,11 @@ def pairs_stage(run, family, module, cfg, conv, label):
     ev = _os0.path.join(run.dir, "events-%s-%s.ndjson" % (family, label))
     run.drive(["one", family], out_path=ev, stdin_path=out)
     props.judge_events(run, family, module, ev, label)
+
+
+def shapes_stage(run, family, module, conv, label="shapes"):
+    pairs_stage(run, family, module, "Gen_Shapes.cfg", conv, label, gen="Gen_Shapes")
+    pairs_stage(run, family, module, "Gen_Shapes_holes.cfg", conv, label + "-holes", gen="Gen_Shapes")
 
 
 @prop("C02")
@@ -55,6 +61,7 @@ def c03(run):
     family_enumerated(run, "valid", "Gen_Valid", "Trace_Valid", gen_cfg=tier_n(run, "Gen_Valid.cfg", "Gen_Valid_full.cfg"))
     family_enumerated(run, "valid", "Gen_Holes", "Trace_Valid", label="holes")
     family_enumerated(run, "valid", "Gen_Rings", "Trace_Valid", label="rings", gen_cfg=tier_n(run, "Gen_Rings.cfg", "Gen_Rings_full.cfg"))
+    shapes_stage(run, "valid", "Trace_Valid", lambda c, i: [{"kind": "geom", "w": c["wa"]}])
     family_random(run, "valid", "Trace_Valid", tier_n(run, 12000, 600000))
 
 FAMILY_MODULE["overlay"] = "Trace_Overlay"
@@ -163,6 +170,7 @@ def c13(run):
                              "runs) incl. exact-similarity images; hull, hull of hull, hull of a shuffled duplicated MultiPoint of "
                              "the control points, both rotated rectangles; non-trivial = at least 3 control points"}
     run.model_check("MC_Hull", cfg=tier_n(run, "MC_Hull.cfg", "MC_Hull_thorough.cfg"), timeout=3000)
+    shapes_stage(run, "hull", "Trace_Hull", lambda c, i: [dict(c, perm=i * 7919 + 1)])
     family_random(run, "hull", "Trace_Hull", tier_n(run, 8000, 300000))
 
 FAMILY_MODULE["measure"] = "Trace_Measure"
@@ -188,6 +196,7 @@ def c14(run):
     run.extra_cov = {"rule": "random valid lattice geometries of all types, polygons with 0..2 holes, multi-geometries with empty "
                              "members, mixed collections, every ring start/direction/hole order (variants), ForceCW/CCW/Reverse, all "
                              "coordinate types, exact-similarity images, Area with a transform; non-trivial = non-empty"}
+    shapes_stage(run, "measure", "Trace_Measure", lambda c, i: [dict(c, force=i % 4, ct=(i // 4) % 4, ts=1 + i % 4, tdx=i % 9 - 4, tdy=(i // 3) % 9 - 4)])
     family_random(run, "measure", "Trace_Measure", tier_n(run, 10000, 400000))
 
 FAMILY_MODULE["boundary"] = "Trace_Boundary"
@@ -214,6 +223,7 @@ def c15(run):
     run.extra_cov = {"rule": "random valid lattice geometries of all types; concave/U/comb/sliver polygons, polygons with holes "
                              "touching the shell, closed and self-touching lines, multilinestrings sharing end points 2..5 ways, "
                              "collections with empty members; non-trivial = non-empty"}
+    shapes_stage(run, "boundary", "Trace_Boundary", lambda c, i: [c])
     family_random(run, "boundary", "Trace_Boundary", tier_n(run, 10000, 400000))
 
 FAMILY_MODULE["rtree"] = "Trace_RTree"
@@ -407,6 +417,7 @@ def c12(run):
     run.model_check("MC_Envelope", cfg=tier_n(run, "MC_Envelope.cfg", "MC_Envelope_thorough.cfg"), timeout=1800)
     family_enumerated(run, "envelope", "Gen_Envelope", "Trace_Envelope", gen_cfg=tier_n(run, "Gen_Envelope.cfg", "Gen_Envelope_thorough.cfg"))
     run.exhaustive = True
+    shapes_stage(run, "envelope", "Trace_Envelope", lambda c, i: [{"kind": "geom", "wa": c["wa"], "wb": "POINT(1 1)"}])
     family_random(run, "envelope", "Trace_Envelope", tier_n(run, 5000, 200000))
 
 FAMILY_MODULE["struct"] = "Trace_StructOps"
@@ -486,6 +497,7 @@ def c17(run):
                              "Simplify thresholds 0..diameter on lattice lines and rings; Densify distances up to 10 x the side; "
                              "SnapToGrid decimal places -320..320 on ordinates up to +-1.8e308 and random bit patterns; Reverse and "
                              "ForceCW/CCW on lattice geometries of every type"}
+    shapes_stage(run, "linear", "Trace_Linear", lambda c, i: [{"kind": "orient", "w": c["wa"], "ct": i % 4}])
     family_random(run, "linear", "Trace_Linear", tier_n(run, 16000, 600000))
 
 FAMILY_MODULE["empty"] = "Trace_Empties"
